@@ -104,7 +104,7 @@ class C17(Campaign):
                    "copy of a copy", "event triggers bound onto the copied model (bind_events_to)",
                    "the model holds its machine and the MODEL is copied (model.sm <-> sm.model cycle)",
                    "listener classes with value-based __eq__/__hash__ (a copy equals its original)",
-                   "snapshot-after-failed-op", "diverging suffixes, interleaved",
+                   "snapshot-after-failed-op", "snapshot after a failed (deferred) initial activation", "diverging suffixes, interleaved",
                    "allow_event_without_transition reassigned on a live machine (before / after the snapshot)"]
     rule = ("one run = a generated machine (all option combinations rtc x allow x state_field x start_value, "
             "custom attribute, model and listener callbacks, sync/async) driven through a prefix, copied with "
@@ -166,6 +166,19 @@ class C17(Campaign):
             for _ in range(rnd.randint(1, 4)):
                 out.append({"op": "send", "inst": rnd.choice(["C", "C", "B"]), "event": rnd.choice(prog["events"]),
                             "kwargs": {"x": rnd.randrange(7000, 7999)} if rnd.random() < 0.4 else {}})
+        enters = sorted(c for c, m_ in prog["cbs"].items() if m_["group"] == "enter")
+        if is_async and enters and rnd.random() < 0.3:
+            # the deferred activation of the original FAILS inside an enter callback (the initial state is
+            # stored by then, nothing is pending any more); copies taken afterwards resume that state
+            cl = next(i for i, o in enumerate(out) if o["op"] == "clone")
+            ep = next((i for i, o in enumerate(out) if 0 < i < cl and o.get("inst") == "A"
+                       and o["op"] in ("send", "activate")), None)
+            if ep is not None:
+                c = rnd.choice(enters)
+                sc["beh"].setdefault(f"{prog['name']}/{c}", []).insert(
+                    0, {"ep": ep, "j": 0, "dp": 0, "raise": rnd.choice(["SimFault", "SimBaseFault", "SimRuntime"]),
+                        "_fault": True})
+                sc["activation_fault"] = True
         if rnd.random() < 0.25:
             # the option is a public attribute read at every event: reassigned on a live machine, before
             # or after the snapshot, it must hold for that copy (and for copies taken afterwards)
